@@ -175,6 +175,7 @@ func init() {
 	}
 	// lemma L2: the real goxmldsig verifyCertificate code (dependency half of C02), symbolic only
 	props["C02"].Harnesses = append(props["C02"].Harnesses, HarnessSpec{Name: "VL_L2_verify_certificate", Replay: "", Unwind: 400})
+	props["C02"].Harnesses = append(props["C02"].Harnesses, HarnessSpec{Name: "VH_C02_cert_window", Replay: "native", Unwind: 400})
 	rollover := HarnessSpec{Name: "VH_C02_store_rollover", Replay: "native", Unwind: 400}
 	logout := HarnessSpec{Name: "VH_C10_logout_post", Replay: "native", Unwind: 400}
 	for _, id := range []string{"C01", "C02", "C10"} {
